@@ -10,12 +10,14 @@
 #include "translated.h"
 uint32_t env_vsnprintf(uint8_t* s, uint64_t n, uint8_t* f, uint8_t* va) { (void)f; (void)va; if (n > 1) { s[0] = '#'; s[1] = 0; } else if (n) s[0] = 0; return 1; }
 
-static uint32_t det_calls, det_calls_unlocked, misuse_now, exited;
+static uint32_t det_calls, det_calls_unlocked, misuse_now, exited, watching;
+/* both worlds: the detector poisons released memory through PlatformSpecificMemset - it must hold the lock while it does */
+uint8_t* h_memset_hook(uint8_t* p, uint32_t c, uint64_t n) { if (watching && !env_mutex_held) det_calls_unlocked++; memset(p, (int)c, n); return p; }
 static uint8_t token[16];
 #ifdef LL2C_TRANSLATED
 /* translated world: the detector's operations are contract stubs that observe the lock (the detector itself is C04-C06);
  * the real build runs the real detector */
-static void det_enter(void) { det_calls++; if (!env_mutex_held) det_calls_unlocked++; }
+static void det_enter(void) { det_calls++; if (watching && !env_mutex_held) det_calls_unlocked++; }
 uint8_t* _ZN18MemoryLeakDetector11allocMemoryEP19TestMemoryAllocatormPKcmb(uint8_t* t, uint8_t* a, uint64_t n, uint8_t* f, uint64_t l, uint8_t sep) { (void)t; (void)a; (void)n; (void)f; (void)l; (void)sep; det_enter(); return token; }
 uint8_t* _ZN18MemoryLeakDetector11allocMemoryEP19TestMemoryAllocatormb(uint8_t* t, uint8_t* a, uint64_t n, uint8_t sep) { (void)t; (void)a; (void)n; (void)sep; det_enter(); return token; }
 void _ZN18MemoryLeakDetector13deallocMemoryEP19TestMemoryAllocatorPvPKcmb(uint8_t* t, uint8_t* a, uint8_t* p, uint8_t* f, uint64_t l, uint8_t sep) { (void)t; (void)a; (void)p; (void)f; (void)l; (void)sep; det_enter(); if (misuse_now) h_real_reporter_fail(); }
@@ -42,12 +44,15 @@ static void body_entry(const int kind, const uint32_t mode) {
   h_mode(mode);
   if (mode == 0 && (is_release(kind) || kind == 9)) { WITNESS("skipped"); return; }   /* releasing a tracked block with overloads off is a usage error */
   uint32_t l0 = env_mutex_lock_calls, u0 = env_mutex_unlock_calls, d0 = det_calls;
+  watching = (mode == 2);
   uint8_t* r = h_entry(kind, blk);
+  watching = 0;
   OBSERVE(env_mutex_lock_calls - l0); OBSERVE(env_mutex_unlock_calls - u0);
   if (mode == 2) {
     CHECK(env_mutex_lock_calls == l0 + 1 && env_mutex_unlock_calls == u0 + 1, "thread-safe mode: the entry point takes the detector's lock exactly once and releases it");
+    CHECK(det_calls_unlocked == 0, "thread-safe mode: every detector operation runs with the lock held");
 #ifdef LL2C_TRANSLATED
-    CHECK(det_calls > d0 && det_calls_unlocked == 0, "thread-safe mode: every detector operation runs with the lock held");
+    CHECK(det_calls > d0, "thread-safe mode goes through the detector");
 #endif
   } else {
     CHECK(env_mutex_lock_calls == l0 && env_mutex_unlock_calls == u0, "the other modes do not touch the lock: all entry points are switched together");
